@@ -114,6 +114,10 @@ class SmilesToken(BigSMILESbase):
                         sub_string = ""
                     elements.append(atom)
                 continue
+            if current_string[0] == "]":
+                raise RuntimeError(
+                    f"Token {self._raw_text} has closing ']' but no opening '['"
+                )
             sub_string += current_string[0]
             current_string = current_string[1:]
         if len(sub_string) > 0:
